@@ -3,7 +3,8 @@
      * Source.Snippet(line): found / not found and the text;
      * for every *file.Error that Parse / Compile / Run returned: its Snippet field and the
        position suffix " (line:column+1)" + snippet of Error() — computed by the model from the
-       source text and the error's (Line, Column) alone.
+       source text and the error's (Line, Column) alone (the case carries the Snippet field and
+       what stands between the message and the snippet in Error()).
    Message texts are not compared (the harness strips the Message prefix from Error()).
    The lexer and parser models are tied to the code on the same fault-injected sources by case
    files evaluated with Corr/CorrC12.v (token and lexer-error locations) and Corr/CorrC11.v (trees
@@ -13,19 +14,40 @@ Require Import X.Base.Value X.File.Source.
 Import ListNotations.
 Open Scope Z_scope.
 
-(* rune lists are written by the harness as strings of six lower-case hexadecimal digits per rune
-   (long list literals are slow to parse) *)
+(* rune lists are written by the harness as the lower-case hexadecimal digits of their UTF-8 bytes
+   (long list literals are slow to parse); `hx` decodes: two digits per byte, then UTF-8 (the
+   harness only writes valid UTF-8) *)
 Definition hexv (a : ascii) : Z := let n := Z.of_N (N_of_ascii a) in if n <? 58 then n - 48 else n - 87.
-Fixpoint hx (s : string) : list Z :=
+Fixpoint hex_bytes (s : string) : list Z :=
   match s with
-  | String a (String b (String c (String d (String e (String f r))))) =>
-      (((((hexv a * 16 + hexv b) * 16 + hexv c) * 16 + hexv d) * 16 + hexv e) * 16 + hexv f) :: hx r
+  | String a (String b r) => (hexv a * 16 + hexv b) :: hex_bytes r
   | _ => []
   end.
+(* fuel = number of bytes *)
+Fixpoint utf8_decode (fuel : nat) (bs : list Z) : list Z :=
+  match fuel with
+  | O => []
+  | S f =>
+    match bs with
+    | [] => []
+    | b0 :: r =>
+      if b0 <? 128 then b0 :: utf8_decode f r
+      else if b0 <? 224 then
+        match r with b1 :: r' => ((b0 - 192) * 64 + (b1 - 128)) :: utf8_decode f r' | _ => [] end
+      else if b0 <? 240 then
+        match r with b1 :: b2 :: r' => ((b0 - 224) * 4096 + (b1 - 128) * 64 + (b2 - 128)) :: utf8_decode f r' | _ => [] end
+      else
+        match r with
+        | b1 :: b2 :: b3 :: r' => ((b0 - 240) * 262144 + (b1 - 128) * 4096 + (b2 - 128) * 64 + (b3 - 128)) :: utf8_decode f r'
+        | _ => []
+        end
+    end
+  end.
+Definition hx (s : string) : list Z := let bs := hex_bytes s in utf8_decode (List.length bs) bs.
 
 Inductive c13case :=
 | CSnip (src : list Z) (line : Z) (found : bool) (text : list Z)
-| CErr (src : list Z) (line col : Z) (snippet_field : list Z) (suffix : list Z).
+| CErr (src : list Z) (line col : Z) (snippet_field : list Z) (position : list Z).
 
 Fixpoint runes_same (a b : list Z) : bool :=
   match a, b with
@@ -42,9 +64,10 @@ Definition case_ok (c : c13case) : bool :=
       | SNotFound => negb found
       | SPanic => false
       end
-  | CErr src line col sn suffix =>
+  | CErr src line col sn position =>
+      (* Error() minus the message = position ++ Snippet *)
       match render src (line, col) with
-      | Some (t, sfx) => runes_same t sn && runes_same sfx suffix
+      | Some (t, sfx) => runes_same t sn && runes_same sfx (position ++ sn)
       | None => false
       end
   end.
